@@ -280,6 +280,13 @@ class SimTransport(asyncio.Transport):
             return
         self.conn.writes.append(datas)
         self.conn.net.on_client_write(self.conn, datas)
+        if getattr(self, "_reset_pending", False):
+            # sock.send() on a socket the peer has reset fails at once: 'Fatal write error on socket transport' -> _force_close;
+            # connection_lost(exc) is delivered by call_soon, the bytes never leave
+            self.conn.net.ctx.probe("write_in_rst_window")
+            self._reset_pending = False
+            self._fatal_error(ConnectionResetError(104, "Connection reset by peer"), "Fatal write error on socket transport")
+            return
         self.conn.client_write(data)
 
     def write_eof(self) -> None:
